@@ -26,7 +26,11 @@ from pymtl3.passes.sim.SimpleTickPass import SimpleTickPass
 
 DRIVERS = ['pipe']
 MODULE = 'PymtlVerif.Props.C20p'
-THEOREMS = []          # filled in below once Props/C20p.lean exists
+THEOREMS = ['PV.C20p.' + t for t in [
+  # level 1: one-cycle facts of the transcribed control equations (any state, any input)
+  'stall_chain', 'stall_keeps', 'bubble', 'squash_origin', 'squash_younger_only', 'rf_write_only_W', 'x0_never_written', 'x0_zero',
+]]
+THEOREM_MODULE = {t: MODULE for t in THEOREMS}
 TRUSTED = [
   'Model/Pipe.lean is a hand transcription of ProcCtrlRTL.py / ProcDpathRTL.py / MiscRTL.py (DropUnitRTL, ImmGenRTL, AluRTL) / '
   'TinyRV0InstRTL.py (DecodeInstType) and of the queues ProcRTL.py instantiates (imemreq_q = BypassQueue2RTL = two chained '
